@@ -120,3 +120,152 @@ def run (delta0 : δ) : Bool → List (Elem δ) → Bool × List (Elem δ)
     (r2.1, r.2 ++ r2.2)
 
 end Noir.IterEnd
+
+/-! `Replay` (src/operator/iteration/replay.rs:86-200): the loop head of `replay`, as a transducer over
+    what it receives: elements of its input (`prev.next()`, only while `!input_finished`) and the
+    leader's `(continue?, state)` messages (consumed in `wait_update`). -/
+namespace Noir.Replay
+
+variable {α : Type}
+
+structure St (α : Type) where
+  /-- `content`: the recorded input of this execution of the loop (ends with `far` once complete) -/
+  content : List (Elem α)
+  /-- `input_finished` -/
+  inputFinished : Bool
+  deriving Repr, DecidableEq
+
+inductive Ev (α : Type) where
+  | input (e : Elem α)
+  | state (cont : Bool)
+
+inductive Act (α : Type) where
+  /-- element handed to the loop body -/
+  | emit (e : Elem α)
+  /-- `self.state.lock()` -/
+  | lock
+  /-- `wait_sync_state`: local state written, barrier, unlock -/
+  | sync
+  deriving Repr, DecidableEq
+
+def init : St α := ⟨[], false⟩
+
+def step (st : St α) : Ev α → St α × List (Act α)
+  | .input e =>
+    if st.inputFinished then (st, [])            -- `input_next` returns None: the input is not pulled
+    else match e with
+      | .far => (⟨st.content ++ [.far], true⟩, [.lock, .emit .far])         -- replay.rs:93-105
+      | .flushBatch => (st, [.emit .flushBatch])                            -- forwarded, not recorded
+      | .term => (st, [.emit .term])
+      | e => (⟨st.content ++ [e], false⟩, [.emit e])                        -- recorded and forwarded
+  | .state cont =>
+    if !st.inputFinished then (st, [])           -- not in `wait_update`: the message stays in its channel
+    else if cont then
+      -- replay.rs:176-186: `content_index = 0`, the whole content is handed out again, `lock` at its `far`
+      (st, .sync :: (st.content.flatMap fun e => if e.isFar then [.lock, .emit e] else [.emit e]))
+    else
+      -- replay.rs:192-196: cleanup for the next execution (nested loops)
+      (⟨[], false⟩, [.sync])
+
+def run : St α → List (Ev α) → St α × List (Act α)
+  | st, [] => (st, [])
+  | st, e :: es =>
+    let r := step st e
+    let r2 := run r.1 es
+    (r2.1, r.2 ++ r2.2)
+
+/-- the elements handed to the body -/
+def emitted (as : List (Act α)) : List (Elem α) := as.filterMap fun | .emit e => some e | _ => none
+
+end Noir.Replay
+
+/-! `Iterate` (src/operator/iteration/iterate.rs:100-280): the loop head of `iterate`. It receives the
+    outside input (`input_stash`), the loop's own output of the running round (`feedback_content`) and
+    the leader's messages; it hands `content` to the body and, when the loop finishes, sends the last
+    round's elements to the output block (`output_sender`). -/
+namespace Noir.Iterate
+
+variable {α : Type}
+
+structure St (α : Type) where
+  content : List (Elem α)
+  stash : List (Elem α)
+  fb : List (Elem α)
+  inputFinished : Bool
+  /-- blocked in `wait_update` (the feedback of the round is complete and was moved to `content`) -/
+  waiting : Bool
+  /-- leader messages that arrived before `wait_update` was reached (they wait in their channel) -/
+  sq : List Bool
+  deriving Repr, DecidableEq
+
+inductive Ev (α : Type) where
+  | input (b : List (Elem α))
+  | feedback (b : List (Elem α))
+  | state (cont : Bool)
+
+inductive Act (α : Type) where
+  | emit (e : Elem α)
+  | lock
+  | sync
+  /-- `output_sender.send(batch)`: one batch to the output block -/
+  | out (b : List (Elem α))
+  deriving Repr, DecidableEq
+
+def init : St α := ⟨[], [], [], false, false, []⟩
+
+/-- one turn of the `next()` loop (iterate.rs:228-275); `none` = blocked on a receive -/
+def pstep (st : St α) : Option (St α × List (Act α)) :=
+  if st.waiting then
+    match st.sq with
+    | [] => none
+    | c :: sq =>
+      -- `wait_sync_state` (iterate.rs:258-268)
+      if c then some ({ st with waiting := false, sq := sq }, [.sync])
+      else some ({ st with waiting := false, sq := sq, inputFinished := false, content := [] },
+                 [.sync, .out st.content])
+  else if !st.inputFinished then
+    match st.stash with
+    | [] => none
+    | .far :: rest => some ({ st with stash := rest, inputFinished := true }, [.lock, .emit .far])   -- :118-124
+    | .term :: rest => some ({ st with stash := rest }, [.out [.term], .emit .term])                 -- :129-134
+    | e :: rest => some ({ st with stash := rest }, [.emit e])
+  else
+    match st.content with
+    | e :: rest =>                                                                                   -- `next_stored`
+      some ({ st with content := rest }, if e.isFar then [.lock, .emit e] else [.emit e])
+    | [] =>
+      if (st.fb.getLast?.map Elem.isFar).getD false then                                                             -- `feedback_finished`
+        some ({ st with content := st.fb, fb := [], waiting := true }, [])                           -- swap, `wait_update`
+      else none
+
+def pump : Nat → St α → St α × List (Act α)
+  | 0, st => (st, [])
+  | fuel + 1, st =>
+    match pstep st with
+    | none => (st, [])
+    | some (st', a) =>
+      let r := pump fuel st'
+      (r.1, a ++ r.2)
+
+def size (st : St α) : Nat := st.content.length + st.stash.length + 2 * st.fb.length + st.sq.length
+
+def apply (st : St α) : Ev α → St α
+  | .input b => { st with stash := st.stash ++ b }
+  | .feedback b => { st with fb := st.fb ++ b }
+  | .state c => { st with sq := st.sq ++ [c] }
+
+/-- deliver one message, then run until blocked -/
+def step (st : St α) (ev : Ev α) : St α × List (Act α) :=
+  pump (size (apply st ev) + 3) (apply st ev)
+
+def run : St α → List (Ev α) → St α × List (Act α)
+  | st, [] => (st, [])
+  | st, e :: es =>
+    let r := step st e
+    let r2 := run r.1 es
+    (r2.1, r.2 ++ r2.2)
+
+def emitted (as : List (Act α)) : List (Elem α) := as.filterMap fun | .emit e => some e | _ => none
+def outputs (as : List (Act α)) : List (List (Elem α)) := as.filterMap fun | .out b => some b | _ => none
+
+end Noir.Iterate
